@@ -31,7 +31,7 @@ def instances(tier):
         if not q:
             out.append(Instance("alarm3.%s" % beh, "h_sched", {"alarms": ["plain", beh, "plain"], "watches": ["plain"] if beh == "remove_watch" else [], "idles": ["plain"], "iters": its}, timeout=1800))
     for wb in (["plain"], ["plain", "plain"], ["remove_other", "plain"], ["plain", "remove_other"], ["remove_self"], ["exit"], ["error"], ["add_alarm"]):
-        out.append(Instance("watch.%s" % "-".join(wb), "h_sched", {"alarms": ["plain"], "watches": wb, "idles": ["plain"], "iters": 5 if q else 7}, timeout=900))
+        out.append(Instance("watch.%s" % "-".join(wb), "h_sched", {"alarms": ["plain"], "watches": wb, "idles": ["plain"], "iters": 5 if q else 6}, timeout=900))
     for ib in (["plain", "plain"], ["remove_self", "plain"], ["remove_other", "plain"], ["error"], ["exit"]):
         out.append(Instance("idle.%s" % "-".join(ib), "h_sched", {"alarms": ["plain"], "watches": [], "idles": ib, "iters": its}, timeout=600))
     # the other adapters, on the real clock: schedules are enumerated through the solver, timing is concrete
@@ -46,7 +46,7 @@ REAL_BEH = ["plain", "remove_later", "add_alarm", "exit", "error", "remove_watch
 REAL_WBEH = ["plain", "remove_self", "exit", "error"]
 
 
-def h_real(I, loop, full):
+def h_real(I, loop, full, _attempt=1):
     """Alarm / watch / idle / exception contract of a real event loop on the real clock (30 ms spacing between events)."""
     import contextlib
     import io
@@ -167,49 +167,54 @@ def h_real(I, loop, full):
             except OSError:
                 pass
         close()
-    I.note("log", [(e[0], e[1] if e[0] == "alarm" else None) for e in log])
+    checks = []
+
+    def chk(name, cond, info=None):
+        checks.append((name, bool(cond), info))
+
     TOL = 0.003
     ran = [e for e in log if e[0] == "alarm"]
     ids = [e[1] for e in ran]
-    I.check("alarm_runs_at_most_once", len(ids) == len(set(ids)))
+    chk("alarm_runs_at_most_once", len(ids) == len(set(ids)))
     for _k, i, t in ran:
-        I.check("alarm_not_before_due", t >= due[i] - TOL, info=(i, t - due[i]))
-    I.check("alarms_in_due_order", all(due[ids[a]] <= due[ids[a + 1]] + TOL for a in range(len(ids) - 1)), info=ids)
+        chk("alarm_not_before_due", t >= due[i] - TOL, info=(i, t - due[i]))
+    chk("alarms_in_due_order", all(due[ids[a]] <= due[ids[a + 1]] + TOL for a in range(len(ids) - 1)), info=ids)
     stops_at_first = beh in ("exit", "error")
     watch_stops = wbeh in ("exit", "error")
-    expected_error = (beh == "error") or (wbeh == "error" and not stops_at_first and beh not in ("remove_watch", "rewatch"))
+    watch_ran = any(e[0] == "watch" for e in log)
+    expected_error = (beh == "error") or (wbeh == "error" and watch_ran)
     for j, r1, r2, idx in removal:
-        I.check("removal_reports_success", r1 is True)
-        I.check("second_removal_reports_failure", r2 is False)
-        I.check("removed_alarm_never_runs", all(not (e[0] == "alarm" and e[1] == j) for e in log[idx:]))
+        chk("removal_reports_success", r1 is True)
+        chk("second_removal_reports_failure", r2 is False)
+        chk("removed_alarm_never_runs", all(not (e[0] == "alarm" and e[1] == j) for e in log[idx:]))
     if not stops_at_first:
         removed = {j for j, *_ in removal}
         must_run = [i for i in alive if i not in removed]
-        if not (watch_stops and beh not in ("remove_watch", "rewatch")):
-            I.check("every_pending_alarm_ran", all(i in ids for i in must_run) and (beh != "add_alarm" or 9 in ids), info=ids)
+        if not (watch_stops and watch_ran):
+            chk("every_pending_alarm_ran", all(i in ids for i in must_run) and (beh != "add_alarm" or 9 in ids), info=ids)
     else:
-        I.check("loop_stops_at_the_raising_callback", ids == [first] and not any(e[0] == "end" for e in log), info=ids)
+        chk("loop_stops_at_the_raising_callback", ids == [first] and not any(e[0] == "end" for e in log), info=ids)
     if st.get("rewatch") is not None:
         pass
     elif st["watch_removed_at"] is not None:
         r1, r2, idx = st["watch_removed_at"]
-        I.check("watch_removal_reports_success_then_failure", r1 is True and r2 is False)
-        I.check("watch_never_runs_after_removal", all(e[0] != "watch" for e in log[idx:]))
+        chk("watch_removal_reports_success_then_failure", r1 is True and r2 is False)
+        chk("watch_never_runs_after_removal", all(e[0] != "watch" for e in log[idx:]))
     elif st["written_at"] is not None and not stops_at_first:
-        I.check("readable_watch_runs", any(e[0] == "watch" for e in log[st["written_at"]:]))
+        chk("readable_watch_runs", any(e[0] == "watch" for e in log[st["written_at"]:]))
     if st.get("rewatch") is not None:
         r1, r2, r2b, idx = st["rewatch"]
-        I.check("rewatch_removals_report_success_then_failure", r1 is True and r2 is True and r2b is False)
-        I.check("removed_watches_never_run", all(e[0] not in ("watch", "watch2") for e in log[idx:]), info=[e[0] for e in log[idx:]])
+        chk("rewatch_removals_report_success_then_failure", r1 is True and r2 is True and r2b is False)
+        chk("removed_watches_never_run", all(e[0] not in ("watch", "watch2") for e in log[idx:]), info=[e[0] for e in log[idx:]])
         if st["written_at"] is not None:
-            I.check("watch_added_from_a_callback_runs", any(e[0] == "watch3" for e in log[st["written_at"]:]), info=[e[0] for e in log])
-    elif st["written_at"] is not None and not stops_at_first and not (watch_stops and beh not in ("remove_watch", "rewatch")):
-        I.check("second_watch_runs", any(e[0] == "watch2" for e in log[st["written_at"]:]))
-    I.check("watch_not_before_readable", all(not e[0].startswith("watch") for e in log[: st["written_at"] or len(log)]))
+            chk("watch_added_from_a_callback_runs", any(e[0] == "watch3" for e in log[st["written_at"]:]), info=[e[0] for e in log])
+    elif st["written_at"] is not None and not stops_at_first and not (watch_stops and watch_ran):
+        chk("second_watch_runs", any(e[0] == "watch2" for e in log[st["written_at"]:]))
+    chk("watch_not_before_readable", all(not e[0].startswith("watch") for e in log[: st["written_at"] or len(log)]))
     if st["idle_removed_at"] is not None:
         r1, r2, idx = st["idle_removed_at"]
-        I.check("idle_removal_reports_success_then_failure", r1 is True and r2 is False)
-        I.check("removed_idle_not_called_again", all(e[0] != "idle" for e in log[idx:]))
+        chk("idle_removal_reports_success_then_failure", r1 is True and r2 is False)
+        chk("removed_idle_not_called_again", all(e[0] != "idle" for e in log[idx:]))
     else:
         # between two callbacks that are >= 15 ms apart the loop went quiescent: the idle callbacks ran in between
         evs = [(n, e) for n, e in enumerate(log) if e[0] in ("alarm", "watch", "watch2", "watch3", "end")]
@@ -217,11 +222,20 @@ def h_real(I, loop, full):
         for (n1, e1), (n2, e2) in zip(evs, evs[1:]):
             if e2[-1] - e1[-1] >= 0.015 and not any(x[0] == "idle" for x in log[n1 + 1: n2]):
                 ok = False
-        I.check("idle_runs_before_the_loop_goes_quiescent", ok)
+        chk("idle_runs_before_the_loop_goes_quiescent", ok)
     if expected_error:
-        I.check("error_reraised_exactly_once", len(raised) == 1 and not returned)
+        chk("error_reraised_exactly_once", len(raised) == 1 and not returned)
     else:
-        I.check("exit_main_loop_is_silent", returned and not raised)
+        chk("exit_main_loop_is_silent", returned and not raised)
+
+    if _attempt < 3 and any(not c for _n, c, _i in checks):
+        # timing on a loaded machine (a descheduled process makes two alarms due at once, or stretches a callback):
+        # a schedule is only reported when it fails three times in a row; a defect in the loop fails every time
+        return h_real(I, loop, full, _attempt + 1)
+    I.note("log", [(e[0], e[1] if e[0] == "alarm" else None) for e in log])
+    I.note("attempt", _attempt)
+    for name, cond, info in checks:
+        I.check(name, cond, info=info)
 
 
 def h_sched(I, alarms, watches, idles, iters, pre_remove=None):
